@@ -984,7 +984,9 @@ class Parser:
             "lparen",
             "lbracket",
             "lbrace",
-        } and not self.stream.current.test_any("name:else", "name:or", "name:and"):
+        } and not self.stream.current.test_any(
+            "name:else", "name:or", "name:and", "name:if"
+        ):
             if self.stream.current.test("name:is"):
                 self.fail("You cannot chain multiple tests with is")
             arg_node = self.parse_primary()
